@@ -941,6 +941,30 @@ def stream_pipeline(ctx, reqs, pending, only_idx=None):
                                     'want': np.stack([s[1] for s in singles]).tolist()}, site='get_frames')
             elif res[0] == 'ok':
                 ctx.fail(case, {'why': 'get_frames succeeded although a single get_frame is refused'}, site='get_frames')
+        # ---- the DESCRIPTION of the image changes between two reads of ONE object (a rescale intercept corrected in memory): the
+        # next read must use the parameters the object holds now, not those of an earlier read (nothing may be remembered across
+        # calls).  Only where the rescale lives at the image level in a single place, so that the change is one attribute.
+        resc = (P['T'].get('rescale') or [])
+        if len(resc) == 1 and resc[0]['place'] == 'image' and resc[0]['vals'][0][1] is not None and not via_file \
+                and P['photometric'].startswith('MONO'):
+            import copy as _copy
+            from gen.pixeltransforms import fl as _fl
+            P2 = _copy.deepcopy(P)
+            new_b = F(resc[0]['vals'][0][1]) + 1
+            P2['T']['rescale'][0]['vals'][0][1] = fs(new_b)
+            flags2 = {'rw': False, 'mod': True, 'voi': False, 'pal': None, 'icc': None, 'pres': False}
+            kw2 = flag_kwargs(flags2)
+            before = call(im.get_frame, 1, **kw2)
+            st_set = call(lambda: setattr(im, 'RescaleIntercept', _fl(fs(new_b))))
+            if st_set[0] == 'ok' and before[0] == 'ok':
+                after = call(im.get_frame, 1, **kw2)
+                case2 = {'stream': 'pipe', 'idx': idx, 'rep': 'changed-description', 'frame': 0, 'flags': flags2, 'opts': {}, 'P': P2}
+                ctx.case(pipeline='changed-description')
+                check_call(ctx, case2, P2, 0, flags2, {}, after, 'get_frame', hist=False)
+                batch2 = call(im.get_frames, [1], **kw2)
+                if after[0] == 'ok' and (batch2[0] != 'ok' or not np.array_equal(np.asarray(batch2[1])[0], np.asarray(after[1]), equal_nan=True)):
+                    ctx.fail(case2, {'why': 'get_frames after the description changed differs from get_frame'}, site='get_frames/changed-description')
+                call(lambda: setattr(im, 'RescaleIntercept', _fl(resc[0]['vals'][0][1])))      # restore for the steps below
         # several reads on ONE object: the very first read again, after reads with other options, refused calls, batch reads
         # (and possibly the pixel-array cache): same answer; and no read has changed the image
         if first is not None:
